@@ -605,6 +605,10 @@ pub fn run(args: &Args) -> Report {
                         if !thorough && (di + si + pi + ci) % (if faults { 5 } else { 2 }) != 0 {
                             continue;
                         }
+                        // the fault product is cubic in the stream length: thinned in the thorough tier too
+                        if thorough && faults && (di + si + pi + ci) % 3 != 0 {
+                            continue;
+                        }
                         check_one(&rep, cfg, &b, pats, data, si, spare, faults, do_find, do_replace);
                         if rep.full() {
                             return;
